@@ -28,6 +28,9 @@ type MemCore struct {
 	enc zapcore.Encoder
 	r   *ring.Ring
 	mu  *sync.RWMutex
+	// cur is the write cursor shared by a core and every core derived from it (With);
+	// nil means this core's own r is the cursor
+	cur **ring.Ring
 }
 
 /*MemLogger - a struct for ring buffered inmemory logger */
@@ -58,7 +61,9 @@ func (ml *MemLogger) GetLogs() []*observer.LoggedEntry {
 	var index = BufferSize - 1
 	mc := ml.core
 	logs := make([]*observer.LoggedEntry, BufferSize)
-	mc.r.Do(func(val interface{}) {
+	mc.mu.Lock()
+	defer mc.mu.Unlock()
+	(*mc.cursor()).Do(func(val interface{}) {
 		if val != nil {
 			logs[index] = val.(*observer.LoggedEntry)
 			index--
@@ -125,18 +130,11 @@ func (mc *MemCore) Write(ent zapcore.Entry, fields []zapcore.Field) error {
 	mc.mu.Lock()
 	defer mc.mu.Unlock()
 
-	var entry *observer.LoggedEntry
-	r := mc.r
-	v := r.Value
-	if v == nil {
-		entry = &observer.LoggedEntry{}
-		r.Value = entry
-	} else {
-		entry = v.(*observer.LoggedEntry)
-	}
-	entry.Entry = ent
-	entry.Context = fields
-	mc.r = mc.r.Next()
+	cur := mc.cursor()
+	r := *cur
+	// a fresh entry per write: entries handed out by GetLogs are never modified afterwards
+	r.Value = &observer.LoggedEntry{Entry: ent, Context: fields}
+	*cur = r.Next()
 	return nil
 }
 
@@ -145,13 +143,24 @@ func (mc *MemCore) Sync() error {
 	return nil
 }
 
+// cursor returns the shared write cursor; callers hold mc.mu
+func (mc *MemCore) cursor() **ring.Ring {
+	if mc.cur == nil {
+		mc.cur = &mc.r
+	}
+	return mc.cur
+}
+
 func (mc *MemCore) clone() *MemCore {
-	mc.mu.RLock()
-	defer mc.mu.RUnlock()
+	mc.mu.Lock()
+	defer mc.mu.Unlock()
+	// a derived core writes into the same ring through the same cursor and under the same
+	// lock as the core it is derived from
 	return &MemCore{
 		LevelEnabler: mc.LevelEnabler,
 		enc:          mc.enc.Clone(),
 		r:            mc.r,
-		mu:           &sync.RWMutex{},
+		mu:           mc.mu,
+		cur:          mc.cursor(),
 	}
 }
